@@ -1,6 +1,7 @@
 package props
 
 import (
+	"sort"
 	"bytes"
 	"fmt"
 	"github.com/robfig/soy/soyhtml"
@@ -120,6 +121,22 @@ func (b Bag) MarshalValue() data.Value {
 	return data.Map{"size": data.Int(len(b)), "first": data.String(first)}
 }
 
+// Attrs is a marshaler of map kind whose Soy form is a list of its entries.
+type Attrs map[string]string
+
+func (a Attrs) MarshalValue() data.Value {
+	keys := make([]string, 0, len(a))
+	for k := range a {
+		keys = append(keys, k)
+	}
+	sort.Strings(keys)
+	out := data.List{}
+	for _, k := range keys {
+		out = append(out, data.String(k+"="+a[k]))
+	}
+	return out
+}
+
 func (l Label) MarshalValue() data.Value {
 	return data.List{data.String("label"), data.String(string(l))}
 }
@@ -233,6 +250,9 @@ func build(r Recipe, c *C20Case) (interface{}, ref.Value) {
 	case "myint":
 		return MyInt(r.I), ref.I(int64(int32(r.I)))
 	case "uint":
+		if r.U > math.MaxInt64 {
+			return uint(r.U), ref.F(float64(r.U)) // (beyond the signed range: the nearest float, never a negative number)
+		}
 		return uint(r.U), ref.I(int64(r.U))
 	case "uint8":
 		return uint8(r.U), ref.I(int64(uint8(r.U)))
@@ -241,6 +261,9 @@ func build(r Recipe, c *C20Case) (interface{}, ref.Value) {
 	case "uint32":
 		return uint32(r.U), ref.I(int64(uint32(r.U)))
 	case "uint64":
+		if r.U > math.MaxInt64 {
+			return r.U, ref.F(float64(r.U))
+		}
 		return r.U, ref.I(int64(r.U))
 	case "float64":
 		return parseF(r.F), ref.F(parseF(r.F))
@@ -255,6 +278,24 @@ func build(r Recipe, c *C20Case) (interface{}, ref.Value) {
 	case "time":
 		t := time.Unix(r.I, int64(r.U)).In(time.FixedZone("", int(parseF(r.F))))
 		return t, ref.S(t.Format(c.TimeFormat))
+	case "slice_time":
+		// one instant in several zones, side by side (equal instants, different texts)
+		base := time.Unix(r.I, int64(r.U))
+		var ts []time.Time
+		var l []ref.Value
+		for _, z := range r.Keys {
+			off, _ := strconv.Atoi(z)
+			t := base.In(time.FixedZone("", off))
+			if off == 1 {
+				t = base.UTC()
+			}
+			ts = append(ts, t)
+			l = append(l, ref.S(t.Format(c.TimeFormat)))
+		}
+		if len(ts) == 0 {
+			return []time.Time{}, ref.L()
+		}
+		return ts, ref.L(l...)
 	case "slice_any":
 		s := make([]interface{}, len(r.Elems))
 		l := make([]ref.Value, len(r.Elems))
@@ -355,6 +396,26 @@ func build(r Recipe, c *C20Case) (interface{}, ref.Value) {
 			return &bag, exp
 		}
 		return bag, exp
+	case "nil_bag":
+		// the nil value of a slice-kind marshaler still marshals itself (only a nil pointer is null)
+		return Bag(nil), ref.M(map[string]ref.Value{"size": ref.I(0), "first": ref.S("")})
+	case "attrs", "nil_attrs":
+		exp := ref.L()
+		var a Attrs
+		if r.T == "attrs" {
+			a = Attrs{}
+			for _, k := range r.Keys {
+				a[k] = r.S
+			}
+			ks := append([]string{}, r.Keys...)
+			sort.Strings(ks)
+			for i, k := range ks {
+				if i == 0 || ks[i-1] != k {
+					exp.L = append(exp.L, ref.S(k+"="+r.S))
+				}
+			}
+		}
+		return a, exp
 	case "nilptr_struct":
 		return (*S1)(nil), ref.N()
 	case "nilptr_int":
@@ -478,9 +539,9 @@ var (
 	c20Ints   = []int64{0, 1, -1, 2, 7, -128, 127, 255, 256, 65535, 1 << 31, -(1 << 31), 1<<53 - 1, 1 << 53, 1<<53 + 1, math.MaxInt64, math.MinInt64}
 	c20Floats = []string{"0", "-0", "0.5", "-1.5", "1", "2", "1e21", "1e-7", "3.25", "NaN", "+Inf", "-Inf", "9007199254740992", "9007199254740993", "1.7976931348623157e308", "5e-324", "255", "0.1"}
 	c20Strs   = []string{"", "a", "0", "false", "null", "é", "<b>", "日本", "a b", "x\x00y", "\xff"}
-	c20Leaf   = []string{"local_a", "local_b", "bag", "ptr_bag", "nil", "bool", "mybool", "int", "int8", "int16", "int32", "int64", "myint", "uint", "uint8", "uint16", "uint32", "uint64",
+	c20Leaf   = []string{"local_a", "local_b", "bag", "ptr_bag", "nil_bag", "attrs", "nil_attrs", "nil", "bool", "mybool", "int", "int8", "int16", "int32", "int64", "myint", "uint", "uint8", "uint16", "uint32", "uint64",
 		"float64", "float32", "myfloat", "string", "mystr", "time", "slice_nil", "map_nil", "nilptr_struct", "nilptr_int", "nilptr_ptr", "nilptr_marsh",
-		"s1", "s3", "marsh", "ptr_marsh", "slice_int", "slice_str", "map_int", "level", "label", "slice_level", "slice_label", "slice_marsh", "map_level", "struct_level"}
+		"s1", "s3", "marsh", "ptr_marsh", "slice_int", "slice_str", "map_int", "level", "label", "slice_level", "slice_label", "slice_marsh", "map_level", "struct_level", "slice_time"}
 	c20Node = []string{"slice_any", "map_any", "map_named", "ptr", "s2", "value", "slice_ptr"}
 )
 
@@ -492,7 +553,9 @@ func genLeafFields(t *rapid.T, r *Recipe) {
 		r.I = rapid.Int64().Draw(t, "i")
 	}
 	r.U = uint64(rapid.Int64Range(0, math.MaxInt64).Draw(t, "u"))
-	if rapid.Bool().Draw(t, "smallU") {
+	if rapid.IntRange(0, 9).Draw(t, "hugeU") == 0 {
+		r.U = rapid.SampledFrom([]uint64{math.MaxUint64, 1 << 63, 1<<63 + 1, math.MaxUint64 - 1, 1<<63 + 1<<62, 1<<64 - 1<<11}).Draw(t, "u3")
+	} else if rapid.Bool().Draw(t, "smallU") {
 		r.U = uint64(rapid.IntRange(0, 70000).Draw(t, "u2"))
 	}
 	if rapid.IntRange(0, 3).Draw(t, "specialFloat") > 0 {
@@ -516,12 +579,19 @@ func genRecipe(t *rapid.T, depth int) Recipe {
 	}
 	genLeafFields(t, &r)
 	switch r.T {
+	case "attrs":
+		r.Keys = rapid.SliceOfN(rapid.SampledFrom(c20Strs), 0, 3).Draw(t, "attrKeys")
+		r.S = rapid.SampledFrom(c20Strs).Draw(t, "attrVal")
 	case "bag", "ptr_bag":
 		r.Keys = rapid.SliceOfN(rapid.SampledFrom(c20Strs), 0, 3).Draw(t, "bag")
 	case "time":
 		r.I = rapid.Int64Range(-62135596800, 253402300799).Draw(t, "sec")
 		r.U = uint64(rapid.IntRange(0, 999999999).Draw(t, "nsec"))
 		r.F = strconv.Itoa(rapid.SampledFrom([]int{0, 3600, -18000, 19800, 45 * 60}).Draw(t, "zone"))
+	case "slice_time":
+		r.I = rapid.Int64Range(-62135596800, 253402300799).Draw(t, "sec")
+		r.U = uint64(rapid.IntRange(0, 999999999).Draw(t, "nsec"))
+		r.Keys = rapid.SliceOfN(rapid.SampledFrom([]string{"0", "1", "3600", "-18000", "19800", "2700"}), 0, 4).Draw(t, "zones")
 	case "s3":
 		r.I = rapid.Int64Range(0, 4102444800).Draw(t, "sec")
 		r.U = uint64(rapid.IntRange(0, 1000).Draw(t, "xy"))
